@@ -6,6 +6,7 @@ import (
 	"slices"
 	"strings"
 	"unicode"
+	"unicode/utf8"
 
 	"golang.org/x/exp/constraints"
 )
@@ -19,7 +20,14 @@ func Exported(s string) string {
 			return initialism
 		}
 	}
-	return strings.ToUpper(s[0:1]) + s[1:]
+	// Upper-case the first rune (not the first byte) so that names starting
+	// with a multi-byte letter stay valid UTF-8.
+	first, size := utf8.DecodeRuneInString(s)
+	upper := unicode.ToUpper(first)
+	if upper == first {
+		return s
+	}
+	return string(upper) + s[size:]
 }
 
 func ReadFile(path string) (string, error) {
@@ -107,8 +115,11 @@ func Min[T cmp.Ordered](x ...T) T {
 // If the string is empty, false is returned. If the first character is a non-alphabetic
 // character, false is returned.
 func FirstIsLower(s string) bool {
-	first := rune(s[0])
-	if len(s) == 0 || !unicode.IsLetter(first) {
+	if len(s) == 0 {
+		return false
+	}
+	first, _ := utf8.DecodeRuneInString(s)
+	if !unicode.IsLetter(first) {
 		return false
 	}
 	return !unicode.IsUpper(first)
